@@ -51,7 +51,7 @@ DumpProbes ==
     <<155, 63, 49, 48, 52, 55, 104, 27, 56, 81>>,                \* ?1047h DECRC Q   (other screen's context)
     <<155, 63, 49, 48, 52, 55, 108, 82>>,                        \* ?1047l R
     <<97, 98, 99>>, <<13, 10>>,                                  \* insert mode, new-line mode
-    <<109>>, <<59, 53, 72>>, <<27, 92>> }                        \* the rest of a cut sequence
+    <<109>>, <<59, 53, 72>>, <<27, 92>>, <<112>> }               \* the rest of a cut sequence (m, ;5H, ST, p)
 DumpOK(v) ==
   \/ (ExcuseKnown /\ DumpClasses(v) # {})
   \/ LET rs == Restored(v) IN
